@@ -199,7 +199,7 @@ func scenC10(x *Exec) {
 		var berr error
 		started := false
 		cond := simrt.NewCond()
-		var got []string // every emitted line, in emission order
+		var got []string  // every emitted line, in emission order
 		var held [][]byte // the slices themselves, kept like a route or destination queue keeps them
 		heldIntact := func() bool {
 			for i, h := range held {
